@@ -33,6 +33,9 @@ def case(draw):
                               horizon=(1, 5), ic_prob=20, tols=('1e-4', '1e-6', '1e-8', '1e-3', None, '0.01'), user_t=(False, False, True),
                               alias_ic=False, const_mag=draw(st.sampled_from([5000, 5000, 500000]))))
     spec['gen_reduction'] = draw(st.sampled_from([False, False, True]))
+    if spec['cert'].get('feedforward') and draw(st.sampled_from([True, False, False, False])):
+        # a recursive (triangular) block reaches an exact fixed point: a stated tolerance of zero is a legitimate request
+        spec['tol'] = draw(st.sampled_from(['0', '0.', '0.0']))
     # the step counter k may be used by any equation, and the time axis may be defined without it
     tmode = draw(st.sampled_from(['as-drawn', 'lagged-t', 'as-drawn', 'lagged-t']))
     if tmode == 'lagged-t':
